@@ -198,6 +198,13 @@ def _lookup(f, k, col, exact, wide=False):
     got_v = np.ravel(F['VLOOKUP'](key, table, col, not exact))[0]
     got_h = np.ravel(F['HLOOKUP'](key, table.T, col, not exact))[0]
     ok = all((g is want) if isinstance(want, XlError) else bool(g == want and type(g) == type(want)) for g in (got_v, got_h))
+    if not exact:
+        # the last argument left out means approximate match (sorted data), as with TRUE / 1
+        d_v = np.ravel(F['VLOOKUP'](key, table, col))[0]
+        d_h = np.ravel(F['HLOOKUP'](key, table.T, col))[0]
+        ok = ok and all((g is want) if isinstance(want, XlError) else bool(g == want and type(g) == type(want)) for g in (d_v, d_h))
+        d_m = np.ravel(F['MATCH'](key, table[:, :1]))[0]
+        ok = ok and ((d_m is pos) if isinstance(pos, XlError) else bool(d_m == pos))
     if col <= ncol and not exact:
         got_l = np.ravel(F['LOOKUP'](key, table[:, 0], table[:, col - 1]))[0]
         ok = ok and ((got_l is want) if isinstance(want, XlError) else bool(got_l == want))
